@@ -4,6 +4,7 @@ import (
 	"go/ast"
 	"go/token"
 	"go/types"
+	"sort"
 	"strings"
 )
 
@@ -115,10 +116,31 @@ func rulesC10(c *Ctx) {
 			return ok && wr.ObjOf(s.X) == relVar && a.Val == want
 		}
 		nS := 0
-		for _, w := range wr.writesToVar(wr.Body, sVar, false) {
+		// the selections are the assignments to s and to the locals whose value is copied into s (a selection computed in
+		// a helper arrives through the helper's own result variable)
+		sAliases := wr.aliasesOf(sVar)
+		inspectNoLit(wr.Body, func(n ast.Node) {
+			// a loop variable is where a value comes from, not another name for s
+			if rs, ok := n.(*ast.RangeStmt); ok {
+				for _, e := range []ast.Expr{rs.Key, rs.Value} {
+					if e != nil {
+						delete(sAliases, wr.ObjOf(e))
+					}
+				}
+			}
+		})
+		var selWrites []ast.Node
+		for v := range sAliases {
+			selWrites = append(selWrites, wr.writesToVar(wr.Body, v, false)...)
+		}
+		sort.Slice(selWrites, func(i, j int) bool { return selWrites[i].Pos() < selWrites[j].Pos() })
+		for _, w := range selWrites {
 			as, ok := w.(*ast.AssignStmt)
 			if !ok || len(as.Rhs) != 1 {
 				continue // the declaration
+			}
+			if id, isID := ast.Unparen(as.Rhs[0]).(*ast.Ident); isID && sAliases[wr.ObjOf(id)] {
+				continue // a plain copy between the aliases
 			}
 			nS++
 			guards := g.GuardsAt(g.VertexOf(w))
